@@ -17,11 +17,6 @@
 (* checked).                                                                                         *)
 (* Known findings (env KF_<name>, see BUILDING.md): C10_PARTIAL_OVERLAP, C10_EXCLUDE_DROPPED,        *)
 (* C10_USERROLE_STICKY, C10_RELOAD_USERROLE - each weakens exactly one clause and is reported.       *)
-(* C10_DELETE_IN_FLIGHT: a delete that names a task whose create has not returned (it is stored and  *)
-(* being started) makes that create fail, and its revert takes the entries back a second time; only  *)
-(* in a trace with such a delete, entries (name, exclusion, flag) missing from the book-keeping are  *)
-(* explained by it.  No generated plan contains such a delete (TaskBook.tla: Delete needs a request  *)
-(* that has returned).                                                                               *)
 EXTENDS TaskBook, IOUtils, SequencesExt
 
 Traces == ndJsonDeserialize(IOEnv.TRACE_FILE)
@@ -32,9 +27,8 @@ VARIABLES tr, l,
           T,        \* stored tasks after the last event
           B,        \* book-keeping after the last event: Targets -> [data, excl, ur, map]
           FL,       \* create requests in flight after the last event
-          dfl,      \* ghost: a delete named a request in flight
           claimed   \* ghost: task id -> pairs named by the specifications of the other tasks of its target - stored or in flight - when it was admitted
-tvars == <<vars, tr, l, T, B, FL, dfl, claimed>>
+tvars == <<vars, tr, l, T, B, FL, claimed>>
 
 Plan == Traces[tr].plan
 \* TRUE if the clause holds, or if it fails in the shape of a known finding that is switched on (and says so)
@@ -52,7 +46,7 @@ IdsOf(S) == {x.id : x \in S}
 FlightRec(x) == [id |-> x.id, name |-> [db |-> x.db, coll |-> x.coll], tgt |-> x.tgt]
 NamedBy(n) == {p \in Univ : Covers(n, p)}
 
-TInit == Init /\ tr \in 1..Len(Traces) /\ l = 1 /\ T = {} /\ B = [t \in Targets |-> EmptyBook] /\ FL = {} /\ dfl = FALSE /\ claimed = <<>>
+TInit == Init /\ tr \in 1..Len(Traces) /\ l = 1 /\ T = {} /\ B = [t \in Targets |-> EmptyBook] /\ FL = {} /\ claimed = <<>>
 
 (* ---- the contract over the logged state ---- *)
 TPathsAgree(S) == \A x \in S : x.sel = x.sel2
@@ -60,21 +54,15 @@ TPathsAgree(S) == \A x \in S : x.sel = x.sel2
 TExclusive(S) == \A x \in S, y \in S : (x.id # y.id /\ x.tgt = y.tgt /\ x.sel \cap y.sel # {}) =>
                      (Partial(x.name, y.name) /\ Known("C10_PARTIAL_OVERLAP", FALSE))
 TSelectsExactly(S, cl) == \A x \in S : x.sel \subseteq NamedBy(x.name) /\ NamedBy(x.name) \ cl[x.id] \subseteq x.sel
-\* an entry the tasks imply is missing: explained by the named finding, or - after a delete of a request in flight - by C10_DELETE_IN_FLIGHT
-Missing(name, d, holds) == IF holds THEN TRUE
-                           ELSE IF d /\ KFOn("C10_DELETE_IN_FLIGHT") THEN PrintT("KF " \o Plan \o " C10_DELETE_IN_FLIGHT")
-                           ELSE Known(name, FALSE)
-TBookImplied(S, bk, d) == \A t \in Targets :
+TBookImplied(S, bk) == \A t \in Targets :
     LET L == {x \in S : x.tgt = t}
         iex == UNION {x.excl : x \in L}
         iur == \E x \in L : x.ur
-        inm == {x.name : x \in L}
-    IN /\ bk[t].data \subseteq inm
-       /\ Missing("C10_NONE", d, inm \subseteq bk[t].data)
+    IN /\ bk[t].data = {x.name : x \in L}
        /\ bk[t].excl \subseteq iex
-       /\ Missing("C10_EXCLUDE_DROPPED", d, iex \subseteq bk[t].excl)
+       /\ Known("C10_EXCLUDE_DROPPED", iex \subseteq bk[t].excl)
        /\ Known("C10_USERROLE_STICKY", bk[t].ur => iur)
-       /\ Missing("C10_RELOAD_USERROLE", d, iur => bk[t].ur)
+       /\ Known("C10_RELOAD_USERROLE", iur => bk[t].ur)
 
 TStep ==
     /\ l <= Len(Traces[tr].events)
@@ -127,9 +115,8 @@ TStep ==
           /\ TPathsAgree(Tn)
           /\ quiet => /\ TExclusive(Tn)
                       /\ TSelectsExactly(Tn, cl)
-                      /\ TBookImplied(Tn, Bn, dfl)
+                      /\ TBookImplied(Tn, Bn)
           /\ T' = Tn /\ B' = Bn /\ FL' = Fn /\ claimed' = cl
-          /\ dfl' = (dfl \/ (e.op = "delete" /\ e.res # "client" /\ e.id \in IdsOf(FL)))
     /\ l' = l + 1 /\ tr' = tr /\ UNCHANGED vars
     /\ (Diag => PrintT("AT " \o ToString(Plan) \o " " \o ToString(l)))
     /\ (l = Len(Traces[tr].events) => PrintT("ACC " \o Plan))
